@@ -472,15 +472,25 @@ func notVal(v val) val {
 }
 
 func andVal(a, b val) val {
-	if a.cb != nil && b.cb != nil {
-		return boolVal(*a.cb && *b.cb)
+	switch { // sub-expressions of the grammar are total and pure, so constants can be folded away
+	case a.cb != nil && *a.cb:
+		return b
+	case b.cb != nil && *b.cb:
+		return a
+	case a.cb != nil || b.cb != nil:
+		return boolVal(false)
 	}
 	return val{k: kBool, coq: "(" + a.coq + " && " + b.coq + ")"}
 }
 
 func orVal(a, b val) val {
-	if a.cb != nil && b.cb != nil {
-		return boolVal(*a.cb || *b.cb)
+	switch {
+	case a.cb != nil && !*a.cb:
+		return b
+	case b.cb != nil && !*b.cb:
+		return a
+	case a.cb != nil || b.cb != nil:
+		return boolVal(true)
 	}
 	return val{k: kBool, coq: "(" + a.coq + " || " + b.coq + ")"}
 }
@@ -698,6 +708,10 @@ func paramKind(typ string) (kind, bool) {
 		return kInt, true
 	case "bool":
 		return kBool, true
+	case optsType, "*" + optsType:
+		return kCfg, true
+	case awsOptsType, "*" + awsOptsType:
+		return kAws, true
 	}
 	return 0, false
 }
@@ -724,6 +738,16 @@ func (t *translator) trCall(x *ast.CallExpr, e *env) (val, error) {
 			}
 			return val{k: kInt, coq: "(slen " + a.coq + ")"}, nil
 		}
+		if (fn.Name == "int" || fn.Name == "int64") && len(x.Args) == 1 { // conversion between 64-bit integer types: identity
+			a, err := t.trExpr(x.Args[0], e)
+			if err != nil {
+				return val{}, err
+			}
+			if a.k == kInt {
+				return a, nil
+			}
+			return val{}, t.errAt(x, "conversion of %v to %s outside the rule grammar", a.k, fn.Name)
+		}
 		if fn.Name == "string" && len(x.Args) == 1 { // conversion of a string-like value
 			a, err := t.trExpr(x.Args[0], e)
 			if err != nil {
@@ -748,6 +772,16 @@ func (t *translator) trCall(x *ast.CallExpr, e *env) (val, error) {
 		if id, ok := fn.X.(*ast.Ident); ok {
 			if _, shadow := e.vars[id.Name]; !shadow {
 				if path, ok := fileImports(e.file)[id.Name]; ok {
+					if path == "time" && fn.Sel.Name == "Duration" && len(x.Args) == 1 { // conversion int -> time.Duration: identity
+						a, err := t.trExpr(x.Args[0], e)
+						if err != nil {
+							return val{}, err
+						}
+						if a.k == kInt {
+							return a, nil
+						}
+						return val{}, t.errAt(x, "conversion of %v to time.Duration outside the rule grammar", a.k)
+					}
 					if path == "time" && fn.Sel.Name == "ParseDuration" {
 						return val{}, t.errAt(x, "time.ParseDuration may only appear as `d, err := time.ParseDuration(<duration option>)`")
 					}
@@ -908,6 +942,11 @@ func (t *translator) trBody(stmts []ast.Stmt, e *env) (val, bool, error) {
 				}
 			}
 		}
+		if ne, ok, err := t.localDefine(s, e); err != nil {
+			return val{}, false, err
+		} else if ok {
+			return t.trBody(stmts[1:], ne)
+		}
 		return val{}, false, t.errAt(s, "assignment outside the rule grammar")
 
 	case *ast.IfStmt:
@@ -952,6 +991,37 @@ func (t *translator) trBody(stmts []ast.Stmt, e *env) (val, bool, error) {
 		return iteBool(c, thenV, elseV), true, nil
 	}
 	return val{}, false, t.errAt(stmts[0], "statement outside the rule grammar")
+}
+
+// localDefine handles `x := <expression of the grammar>` (a fresh, never re-assigned name is what := of a new
+// identifier gives; re-assignment `=` stays outside the grammar).  The expression is substituted for the name.
+func (t *translator) localDefine(s *ast.AssignStmt, e *env) (*env, bool, error) {
+	if s.Tok != token.DEFINE || len(s.Lhs) != 1 || len(s.Rhs) != 1 {
+		return nil, false, nil
+	}
+	id, ok := s.Lhs[0].(*ast.Ident)
+	if !ok || id.Name == "_" {
+		return nil, false, nil
+	}
+	if _, exists := e.vars[id.Name]; exists {
+		return nil, false, t.errAt(s, "redefinition of %s outside the rule grammar", id.Name)
+	}
+	v, err := t.trExpr(s.Rhs[0], e)
+	if err != nil {
+		return nil, false, err
+	}
+	switch v.k {
+	case kInt, kStr, kBool, kCfg, kAws:
+	default:
+		return nil, false, t.errAt(s, "local definition of a %v outside the rule grammar", v.k)
+	}
+	ne := *e
+	ne.vars = map[string]val{}
+	for k, x := range e.vars {
+		ne.vars[k] = x
+	}
+	ne.vars[id.Name] = v
+	return &ne, true, nil
 }
 
 // durationAccessor recognises exactly the shape
@@ -1080,8 +1150,8 @@ func (t *translator) rules() ([]rule, error) {
 		return nil, t.errAt(last, "expected `return %s`", problems)
 	}
 	var out []rule
-	var walk func(stmts []ast.Stmt, guards []val) error
-	walk = func(stmts []ast.Stmt, guards []val) error {
+	var walk func(stmts []ast.Stmt, guards []val, e *env) error
+	walk = func(stmts []ast.Stmt, guards []val, e *env) error {
 		for _, s := range stmts {
 			switch s := s.(type) {
 			case *ast.ExprStmt:
@@ -1119,9 +1189,18 @@ func (t *translator) rules() ([]rule, error) {
 					msg, _ = strconv.Unquote(bl.Value)
 				}
 				out = append(out, rule{coq: body.coq, src: src, msg: msg})
+			case *ast.AssignStmt:
+				ne, ok, err := t.localDefine(s, e)
+				if err != nil {
+					return err
+				}
+				if !ok {
+					return t.errAt(s, "assignment outside the rule grammar")
+				}
+				e = ne
 			case *ast.IfStmt:
-				if s.Init != nil || s.Else != nil {
-					return t.errAt(s, "guard with init or else outside the rule grammar")
+				if s.Init != nil {
+					return t.errAt(s, "guard with an init statement outside the rule grammar")
 				}
 				g, err := t.trExpr(s.Cond, e)
 				if err != nil {
@@ -1131,8 +1210,19 @@ func (t *translator) rules() ([]rule, error) {
 					return t.errAt(s.Cond, "guard is a %v", g.k)
 				}
 				g.dur = t.src(s.Cond) // (re-used as the printable source of the guard)
-				if err := walk(s.Body.List, append(append([]val{}, guards...), g)); err != nil {
+				if err := walk(s.Body.List, append(append([]val{}, guards...), g), e); err != nil {
 					return err
+				}
+				switch el := s.Else.(type) {
+				case nil:
+				case *ast.BlockStmt:
+					ng := notVal(g)
+					ng.dur = "!(" + g.dur + ")"
+					if err := walk(el.List, append(append([]val{}, guards...), ng), e); err != nil {
+						return err
+					}
+				default:
+					return t.errAt(s, "else-if chain outside the rule grammar")
 				}
 			default:
 				return t.errAt(s, "statement outside the rule grammar")
@@ -1140,7 +1230,7 @@ func (t *translator) rules() ([]rule, error) {
 		}
 		return nil
 	}
-	if err := walk(body[2:len(body)-1], nil); err != nil {
+	if err := walk(body[2:len(body)-1], nil, e); err != nil {
 		return nil, err
 	}
 	if len(out) == 0 {
